@@ -86,8 +86,9 @@ func VerifRawText() {
 	ti := vRange("tag", 0, len(vnRawTags)-1)
 	name := vnRawTags[ti]
 	pre := ""
-	if name == "script" && vRange("escaped", 0, 1) == 1 {
-		pre = "<!--"
+	if name == "script" {
+		// sketches of the script double-escape states
+		pre = []string{"", "<!--", "<!--<script>", "<!--<script>a</script>", "<!--<script></script>-->"}[vRange("escaped", 0, 4)]
 	}
 	n := vRange("n", 0, vParam("N", 3))
 	hole := vBytes("b", n)
@@ -121,4 +122,52 @@ func VerifRawText() {
 		vAssert(tt == EndTagToken, "rawtext-endtag")
 	}
 	vReach("rawtext")
+}
+
+// VerifForeign: <svg>/<math> + body + end tag in any ASCII case + following element: the
+// subtree comes back as exactly one SVG/Math token ending at the matching end tag.
+func VerifForeign() {
+	name := []string{"svg", "math"}[vRange("tag", 0, 1)]
+	n := vRange("n", 0, vParam("N", 2))
+	body := vBytes("b", n)
+	for i := range body {
+		c := body[i]
+		vAssume(c == '<' || c == '/' || c == '>' || c == 'a' || c == ' ' || c == '"' || c == 's')
+	}
+	// the end tag name in arbitrary ASCII case
+	end := vBytes("e", len(name))
+	for i := range end {
+		vAssume(vnLower(end[i]) == name[i])
+	}
+	// reference: the body must not itself contain the end tag or an open quote
+	quotes := 0
+	for i := range body {
+		if body[i] == '"' {
+			quotes++
+		}
+	}
+	vAssume(quotes%2 == 0)
+	for i := 0; i+2 <= n; i++ {
+		vAssume(!(body[i] == '<' && body[i+1] == '/'))
+	}
+	if n > 0 {
+		vAssume(body[n-1] != '<')
+	}
+	src := append([]byte("<"+name+">"), body...)
+	src = append(src, '<', '/')
+	src = append(src, end...)
+	src = append(src, '>')
+	total := len(src)
+	src = append(src, "<p>"...)
+	l := NewLexer(parse.NewInputBytes(append(make([]byte, 0, len(src)+1), src...)))
+	tt, d := l.Next()
+	if name == "svg" {
+		vAssert(tt == SVGToken, "foreign-type")
+	} else {
+		vAssert(tt == MathToken, "foreign-type")
+	}
+	vAssert(len(d) == total, "foreign-content-length")
+	tt, _ = l.Next()
+	vAssert(tt == StartTagToken && string(l.Text()) == "p", "element-after-foreign-content-lost")
+	vReach("foreign")
 }
